@@ -52,8 +52,20 @@ def tableSimSigned (sym : Bool) (salt a b : Nat) : Float32 :=
 def tableSimCoarse (sym : Bool) (salt a b : Nat) : Float32 :=
   Float32.ofNat ((if sym then ((a + b) * 13 + a * b * 7 + salt) % 64 else (a * 31 + b * 17 + salt) % 64) % 8) / 4
 
+/-- NON-FINITE user scores: with `k = (the hash of the other tables) % 16`:
+`0 ↦ -inf`, `15 ↦ +inf`, `7 ↦ NaN`, otherwise `k/8` (spec `i` asymmetric, `j` symmetric).  A row maximum `+inf` next to a row maximum `-inf` makes the sum of the maxima
+NaN also without NaN entries. -/
+def tableSimNonFinite (sym : Bool) (salt a b : Nat) : Float32 :=
+  let k := (if sym then ((a + b) * 13 + a * b * 7 + salt) % 64 else (a * 31 + b * 17 + salt) % 64) % 16
+  if k = 0 then Float32.ofBits 0xff800000
+  else if k = 15 then Float32.ofBits 0x7f800000
+  else if k = 7 then Float32.ofBits 0x7fc00000
+  else Float32.ofNat k / 8
+
 def parseSimSpec (s : String) : Option (Nat → Nat → Float32) :=
   match s.toList with
+  | 'i' :: rest => (String.ofList rest).toNat?.map fun salt => tableSimNonFinite false salt
+  | 'j' :: rest => (String.ofList rest).toNat?.map fun salt => tableSimNonFinite true salt
   | 'u' :: rest => (String.ofList rest).toNat?.map fun salt => tableSimCoarse false salt
   | 'v' :: rest => (String.ofList rest).toNat?.map fun salt => tableSimCoarse true salt
   | 't' :: rest => (String.ofList rest).toNat?.map fun salt => tableSim false salt
